@@ -7,7 +7,7 @@ import pipegen
 import vlib
 from vlib import hx
 
-DESTS = [e2e.IMDS, e2e.OTHER]
+DESTS = [e2e.IMDS, e2e.OTHER, e2e.OTHER2]
 DEAD = (e2e.OTHER[0], 81)      # an address of this namespace with no listener: the upstream connect is refused
 
 
@@ -30,6 +30,54 @@ def observe_ctx(stack, conn, token):
         host = e2e.HOSTS[recs[0]["host"]]
         return "A %d %s %d" % (elev, host[0], host[1]), resp, recs
     return "other:%s:%d" % (resp["status"], len(recs)), resp, recs
+
+
+def exec_between_connections(chk, stack):
+    """the process a record names is looked up when ITS connection is accepted: the same pid that has exec'ed another program in
+    between (or a re-used pid) is another caller. Observed through the connection summary the agent keeps per caller."""
+    import os
+    import shutil
+    import subprocess
+    import sys
+    exe_a = os.path.join(stack.sd, "cbin", "first-program")
+    exe_b = os.path.join(stack.sd, "cbin", "second-program")
+    os.makedirs(os.path.dirname(exe_a), exist_ok=True)
+    shutil.copyfile(sys.executable, exe_a); os.chmod(exe_a, 0o755)
+    shutil.copyfile(shutil.which("sleep"), exe_b); os.chmod(exe_b, 0o755)
+    env = dict(os.environ, PYTHONHOME=sys.base_prefix)
+    p = subprocess.Popen([exe_a, "-c", "import sys,os; sys.stdin.readline(); os.execv(sys.argv[1], [sys.argv[1], '600'])", exe_b],
+                         stdin=subprocess.PIPE, stdout=subprocess.DEVNULL, stderr=subprocess.DEVNULL, env=env)
+    stack.pids.append(p)
+    time.sleep(0.3)
+    if p.poll() is not None:
+        chk.notes.append("exec-between-connections stage skipped: the helper interpreter did not start")
+        return
+    stack.ctl("clear")
+    seen = []
+    for phase in ("before exec", "after exec"):
+        port = stack.fresh_port()
+        stack.ctl("audit %d 0 %d 1 %s %d" % (port, p.pid, e2e.IMDS[0], e2e.IMDS[1]))
+        try:
+            c = e2e.ClientConn(port, 6.0)
+        except OSError:
+            return
+        c.request(req_raw("exec-" + phase[:5]), b"GET", 6.0)
+        c.close(rst=True)
+        time.sleep(0.05)
+        summ = stack.ctl("conns")
+        paths = sorted({vlib.unhx(e.split("|")[3]).decode("utf-8", "replace") for e in summ.split(",") if e and e != "-" and "|" in e})
+        seen.append(paths)
+        if phase == "before exec":
+            p.stdin.write(b"go\n"); p.stdin.flush()
+            time.sleep(0.4)
+    chk.case(nontrivial_key=("exec-between", tuple(map(tuple, seen))))
+    chk.count("exec_between_connections")
+    d = {"pid": p.pid, "program_before": exe_a, "program_after": exe_b, "summary_paths_after_first": seen[0], "summary_paths_after_second": seen[1]}
+    if not any(x.endswith("first-program") for x in seen[0]):
+        chk.disagreement("attribution", d, "first connection summarised under first-program", seen[0])
+    elif not any(x.endswith("second-program") for x in seen[1]):
+        chk.violation("a connection was attributed to the program an EARLIER connection of the same pid belonged to", d,
+                      expected="second connection summarised under second-program", observed=seen[1])
 
 
 def run(chk):
@@ -200,6 +248,7 @@ def run(chk):
             left = stack.ctl("ports")
             if left != "-":
                 chk.violation("audit records left behind after all connections were accepted", {"round": rd}, expected="-", observed=left)
+        exec_between_connections(chk, stack)
     finally:
         stack.close()
     chk.coverage["rule"] = ("histories of 4-14 connections over 4 source ports: attributed, direct, immediate port reuse without/with a fresh "
